@@ -465,6 +465,10 @@ static void run_step(const Case &c, pbt::Ctx &ctx)
     }
   }
   PBT_TRACKED_OK();
+  // a worker may still be between "the function has returned" and "the task object (holding the result of a dropped
+  // future) is deleted": wait for that, a fixed pause is a race under load (seen as unreproducible failures in a loaded
+  // thorough run); a result that really leaked stays alive and still fails here
+  waitUntil([&] { return pbt::treg().liveCount() == 0; }, 10.0);
   PBT_ASSERT_MSG(pbt::treg().liveCount() == 0, "result objects leaked: " << pbt::treg().liveCount());
   static const char *rn[] = {"int", "double", "string", "vector", "tracked"};
   if (api)
